@@ -47,6 +47,18 @@ def bool_cast_fact(S, tid):
     return None
 
 
+def conj_cast_facts(S, tid):
+    """bitand-tree of `cast of component succeeded` facts -> list of component names, else None"""
+    t = S.terms[tid]
+    if t[0] == 'a' and t[1] == 'bitand' and len(t[2]) == 2:
+        l, r = conj_cast_facts(S, t[2][0]), conj_cast_facts(S, t[2][1])
+        return l + r if l is not None and r is not None else None
+    f = bool_cast_fact(S, tid)
+    if f is not None and f[1] is True:
+        return [f[0]]
+    return None
+
+
 def payload_of(S, tid):
     """term proj(variant(numcast(atom), 1), 0) -> atom name"""
     t = S.terms[tid]
@@ -68,6 +80,25 @@ def cast_paths(S, o, status=None):
         yield status, o
         return
     if k == 'ite':
+        # an accumulated flag `ok1 & ok2 & ...`: true means every listed cast succeeded, false that at least one failed
+        conj = conj_cast_facts(S, o['c'])
+        if conj is not None and len(conj) > 1:
+            st2 = dict(status)
+            feasible = True
+            for nm_ in conj:
+                if st2.get(nm_) is False:
+                    feasible = False
+                st2[nm_] = True
+            if feasible:
+                yield from cast_paths(S, o['t'], st2)
+            st3 = dict(status)
+            if not all(st3.get(nm_) is True for nm_ in conj):
+                if sum(1 for nm_ in conj if st3.get(nm_) is not True) == 1:
+                    st3[[nm_ for nm_ in conj if st3.get(nm_) is not True][0]] = False
+                else:
+                    st3['#some-failed'] = st3.get('#some-failed', frozenset()) | frozenset(conj)
+                yield from cast_paths(S, o['e'], st3)
+            return
         # `x.is_none()` / `x.is_some()`: a boolean test of the same discriminant
         f = bool_cast_fact(S, o['c'])
         if f is None:
@@ -147,8 +178,8 @@ def check_cast(run, S, name, spec, kw):
         got = [payload_of(S, v['t']) if 't' in v else None for v in vals]
         run.ob(key + ':positions' + ('' if si == 0 else ':%d' % si), got == names, rule='K1 copy provenance', expected='component i of the result = scalar cast of component i of the source: %s' % names, found=got, where=where)
     # None leaves: the path established that some component failed
-    badn = [dict(st_) for st_, l in nones if not any(st_.get(n_) is False for n_ in names)]
-    failed = sorted({n_ for st_, l in nones for n_ in names if st_.get(n_) is False})
+    badn = [dict(st_) for st_, l in nones if not any(st_.get(n_) is False for n_ in names) and not st_.get('#some-failed')]
+    failed = sorted({n_ for st_, l in nones for n_ in names if st_.get(n_) is False} | {n_ for st_, l in nones for n_ in st_.get('#some-failed', ())})
     run.ob(key + ':none', not badn and failed == sorted(names), rule='K5 guard pass-set', expected='None only when some component failed to cast, and a None outcome exists for the failure of each component', found=badn[:2] or failed, where=where)
 
 
